@@ -229,8 +229,8 @@ theorem to_u16_range {v : Int} (h : -32768 ≤ v ∧ v < 65536) : ∃ u, to_u16 
   have h1 : ¬ (v ≥ 65536) := by omega
   have h2 : ¬ (v < -32768) := by omega
   by_cases h3 : v < 0
-  · exact ⟨65536 + v, by simp [h1, h2, h3]; rfl, by omega, by omega⟩
-  · exact ⟨v, by simp [h1, h2, h3]; rfl, by omega, by omega⟩
+  · exact ⟨65536 + v, by simp [h1, h2, h3]; (first | rfl | exact congrArg Except.ok (by omega)), by omega, by omega⟩
+  · exact ⟨v, by simp [h1, h2, h3]; (first | rfl | exact congrArg Except.ok (by omega)), by omega, by omega⟩
 
 /-- cells occupied by a data statement -/
 def dataCells (op : Op) : Int :=
